@@ -2,6 +2,9 @@ import Enc.Model.Json.Buf
 import Enc.Spec.Json.Render
 import Enc.Lemmas.JsonBuf
 import Enc.Lemmas.JsonEncFloat
+import Enc.Model.Json.StrHelpers
+import Enc.Spec.Json.StrHelpers
+import Enc.Lemmas.JsonStrHelpers
 /-!
 # C15 — json.Append is oblivious to the destination's length and capacity
 Property theorems only (proofs in Enc/Lemmas/JsonBuf.lean).
@@ -48,5 +51,140 @@ theorem encodeFloat_oblivious (dst digits : Bytes) (fmt : Model.Json.FFmt) (h : 
     (Model.Json.encodeFloatFmt dst fmt digits).take dst.length = dst ∧
     (Model.Json.encodeFloatFmt dst fmt digits).drop dst.length = Model.Json.encodeFloatFmt [] fmt digits :=
   Lemmas.JsonEncFloat.encodeFloatFmt_oblivious dst digits fmt h
+
+/-! ## the Append-style string helpers: AppendEscape, AppendUnescape, RawValue.AppendUnquote (and Escape, Unescape, Unquote)
+
+Model: `Model/Json/StrHelpers.lean` — the helpers and what they call (`encodeString`, `parseStringUnquote` with its scratch
+slice, `appendRune`'s four-byte over-append, `appendCoerceInvalidUTF8`) on the `Slice` model, every `append` possibly
+reallocating under an arbitrary growth policy. In each theorem `b` is any destination (any prefix, any spare capacity),
+`grow` any growth policy; "prefix cells" = the first `len(b)` cells of the backing array the result lives in. -/
+section StrHelpers
+open Enc.Model.Json Enc.Model.Json.StrHelpers
+
+/-- **AppendEscape** returns the destination's bytes followed by exactly encoding/json's `appendString` of the string;
+the result is a well-formed slice and the cells below `len(b)` are the destination's. -/
+theorem appendEscape_eq (grow : Nat → Nat → Nat) (b : Slice) (hb : b.Wf) (s : Bytes) (html : Bool) :
+    (appendEscape grow b s html).data = b.data ++ Spec.Json.appendString s html ∧
+    (appendEscape grow b s html).Wf ∧
+    (appendEscape grow b s html).arr.take b.len = b.arr.take b.len :=
+  Lemmas.JsonStrHelpers.appendEscape_eq grow b hb s html
+
+/-- … the remainder is what the call with a nil destination returns, under any two growth policies -/
+theorem appendEscape_oblivious (g1 g2 : Nat → Nat → Nat) (b : Slice) (hb : b.Wf) (s : Bytes) (html : Bool) :
+    (appendEscape g1 b s html).data = b.data ++ (appendEscape g2 Slice.empty s html).data :=
+  Lemmas.JsonStrHelpers.appendEscape_oblivious g1 g2 b hb s html
+
+/-- **AppendUnescape**, for EVERY input and all parse flags: the result is the destination's bytes followed by what
+`decodeString` left in the scratch string, which is what the buffer-free decoder model stores (`unescapeText`): the content
+of the literal the input starts with — the error of decodeString is dropped, so for `null…`, for input that is not a
+string literal, or malformed, NOTHING is appended and the destination is returned as it was; trailing bytes after the
+literal are ignored. Prefix cells untouched. -/
+theorem appendUnescape_eq (grow : Nat → Nat → Nat) (fl : PFlags) (b : Slice) (hb : b.Wf) (s : Bytes) :
+    (appendUnescape grow fl b s).data = b.data ++ unescapeText fl s ∧
+    (appendUnescape grow fl b s).Wf ∧
+    (appendUnescape grow fl b s).arr.take b.len = b.arr.take b.len :=
+  Lemmas.JsonStrHelpers.appendUnescape_eq grow fl b hb s
+
+/-- the scratch string does not depend on any buffer or growth policy -/
+theorem decodeStringBuf_eq (grow : Nat → Nat → Nat) (fl : PFlags) (s : Bytes) :
+    decodeStringBuf grow fl s = unescapeText fl s :=
+  Lemmas.JsonStrHelpers.decodeStringBuf_eq grow fl s
+
+/-- … and with flags that are sound for the input (the zero flags always are) it is encoding/json's `unquote` of the string
+literal recognised by the RFC 8259 grammar at the start of the input, empty when there is none -/
+theorem unescapeText_std (fl : PFlags) (s : Bytes) (hq : Lemmas.JsonString.QSound fl s) :
+    unescapeText fl s = Spec.Json.unescapeStd s :=
+  Lemmas.JsonStrHelpers.unescapeText_std fl s hq
+
+theorem appendUnescape_eq_std (grow : Nat → Nat → Nat) (b : Slice) (hb : b.Wf) (s : Bytes) :
+    (appendUnescape grow {} b s).data = b.data ++ Spec.Json.unescapeStd s :=
+  Lemmas.JsonStrHelpers.appendUnescape_eq_std grow b hb s
+
+theorem appendUnescape_oblivious (g1 g2 : Nat → Nat → Nat) (fl : PFlags) (b : Slice) (hb : b.Wf) (s : Bytes) :
+    (appendUnescape g1 fl b s).data = b.data ++ (appendUnescape g2 fl Slice.empty s).data :=
+  Lemmas.JsonStrHelpers.appendUnescape_oblivious g1 g2 fl b hb s
+
+/-- **RawValue.AppendUnquote** (after fix 0d659f8): when the receiver is exactly one JSON string literal the result is the
+destination's bytes followed by its content (encoding/json's `unquote`), once, prefix cells untouched — although a literal
+with escapes or non-ASCII bytes is unquoted straight into the destination, `appendRune` over-appending four bytes each
+time; any other receiver (malformed literal, trailing bytes, not a string) panics. -/
+theorem appendUnquote_eq (grow : Nat → Nat → Nat) (v : Bytes) (b : Slice) (hb : b.Wf) :
+    match Spec.Json.unquoteTok v with
+    | some u => ∃ r, appendUnquote grow v (some b) = .ok r ∧ r.Wf ∧ r.data = b.data ++ u ∧
+        r.arr.take b.len = b.arr.take b.len
+    | none => ∃ c, appendUnquote grow v (some b) = .panic c :=
+  Lemmas.JsonStrHelpers.appendUnquote_eq grow v b hb
+
+/-- Unquote (nil destination) -/
+theorem unquote_eq (grow : Nat → Nat → Nat) (v : Bytes) :
+    match Spec.Json.unquoteTok v with
+    | some u => ∃ r, unquote grow v = .ok r ∧ r.data = u
+    | none => ∃ c, unquote grow v = .panic c :=
+  Lemmas.JsonStrHelpers.unquote_eq grow v
+
+/-- same panic as with a nil destination; otherwise the remainder is what the call with a nil destination returns -/
+theorem appendUnquote_oblivious (g1 g2 : Nat → Nat → Nat) (v : Bytes) (b : Slice) (hb : b.Wf) :
+    match unquote g2 v with
+    | .ok r0 => ∃ r, appendUnquote g1 v (some b) = .ok r ∧ r.data = b.data ++ r0.data
+    | .panic _ => ∃ c, appendUnquote g1 v (some b) = .panic c
+    | .err _ => False :=
+  Lemmas.JsonStrHelpers.appendUnquote_oblivious g1 g2 v b hb
+
+/-- the unquoter with a scratch slice (what AppendUnquote and the rejected variant below build on): same error and
+remainder as the buffer-free model; the content either as a sub-slice of the input or appended to the scratch slice -/
+theorem parseStringUnquote_scratch (grow : Nat → Nat → Nat) (fl : PFlags) (v : Bytes) (b : Option Slice)
+    (hb : Lemmas.JsonStrHelpers.OptWf b) :
+    match parseStringUnquote fl v with
+    | none => parseStringUnquoteB (sliceOps grow) fl v b = .err
+    | some (u, rest) =>
+      parseStringUnquoteB (sliceOps grow) fl v b = .plain u rest ∨
+      ∃ r, parseStringUnquoteB (sliceOps grow) fl v b = .appended r rest ∧ r.Wf ∧
+        r.data = Lemmas.JsonStrHelpers.optData b ++ u :=
+  Lemmas.JsonStrHelpers.psuB_spec grow fl v b hb
+
+/-- **Escape / Unescape round trip** (via C14 `string_round_trip`): for every byte string and any growth policies,
+`Unescape(Escape(s))` is `s` with invalid UTF-8 replaced by U+FFFD -/
+theorem escape_unescape_round_trip (g1 g2 : Nat → Nat → Nat) (s : Bytes) :
+    (unescape g1 (escape g2 s).data).data = Spec.Json.coerceUTF8 s :=
+  Lemmas.JsonStrHelpers.escape_unescape g1 g2 s
+
+/-- `"café"` -/
+def cafeU : Bytes := [0x22, 0x63, 0x61, 0x66, 0x5c, 0x75, 0x30, 0x30, 0x65, 0x39, 0x22]
+/-- an empty destination with five spare bytes that hold 0xEE from an earlier use -/
+def stale5 : Slice := ⟨[0xEE, 0xEE, 0xEE, 0xEE, 0xEE], 0⟩
+
+/-- **Negative witness** for the rejected variant of AppendUnescape that hands `b[len(b):]` to the unquoter as its scratch
+slice and returns `b[:len(b)+n]` "in place" when the text fits: fitting is not being in place. For `"café"` (5 bytes
+unescaped) and exactly 5 spare bytes, `appendRune` appends 3+4 > 5 bytes, the scratch slice moves, and the variant
+returns `caf` followed by two stale bytes of the destination — under every growth policy; the code as written returns
+`café`. With the é written as UTF-8 in the literal (no `\u`, no over-append) the variant happens to be right. -/
+theorem appendUnescape_in_place_witness (grow : Nat → Nat → Nat) :
+    appendUnescapeInPlace grow {} stale5 cafeU = [0x63, 0x61, 0x66, 0xEE, 0xEE] ∧
+    (appendUnescape grow {} stale5 cafeU).data = [0x63, 0x61, 0x66, 0xc3, 0xa9] := by
+  constructor
+  · rfl
+  · rw [appendUnescape_eq_std grow stale5 (by simp [stale5, Slice.Wf])]
+    decide +kernel
+
+/-- (Go's doubling growth policy; the outcome above does not depend on it) -/
+theorem appendUnescape_in_place_utf8_literal :
+    appendUnescapeInPlace (fun c n => max (2 * c) n) {} stale5 [0x22, 0x63, 0x61, 0x66, 0xc3, 0xa9, 0x22]
+      = [0x63, 0x61, 0x66, 0xc3, 0xa9] := by decide +kernel
+
+/-- non-vacuity: a destination with a two-byte prefix and one spare byte; HTML, invalid UTF-8; a surrogate pair;
+a malformed token -/
+example : (appendEscape (fun _ n => n) ⟨[1, 2, 0xEE], 2⟩ [0x3c, 0xff] true).data
+    = [1, 2] ++ Spec.Json.appendString [0x3c, 0xff] true :=
+  (appendEscape_eq _ _ (by simp [Slice.Wf]) _ _).1
+example : Spec.Json.unescapeStd cafeU = [0x63, 0x61, 0x66, 0xc3, 0xa9] := by decide +kernel
+example : Spec.Json.unescapeStd [0x22, 0x61, 0x22, 0x78] = [0x61] ∧ Spec.Json.unescapeStd [0x22, 0x61] = [] := by decide +kernel
+example : Spec.Json.unquoteTok [0x22, 0x5c, 0x75, 0x64, 0x38, 0x33, 0x64, 0x5c, 0x75, 0x64, 0x65, 0x30, 0x30, 0x22]
+    = some [0xf0, 0x9f, 0x98, 0x80] := by decide +kernel
+example : Spec.Json.unquoteTok [0x22, 0x61, 0x22, 0x78] = none ∧ Spec.Json.unquoteTok [0x22, 0x5c, 0x78, 0x22] = none := by
+  decide +kernel
+example : (match appendUnquote (fun _ n => n) cafeU (some ⟨[7, 0xEE, 0xEE, 0xEE, 0xEE, 0xEE], 1⟩) with
+    | .ok r => r.data | _ => []) = [7, 0x63, 0x61, 0x66, 0xc3, 0xa9] := by decide +kernel
+
+end StrHelpers
 
 end Enc.Props.C15
